@@ -394,6 +394,63 @@ pub fn run(tier: Tier) -> ! {
         }
     }
 
+    // ---- sparse operands: inverse mod x^n and division by sparse divisors -----------------------
+    // (a Newton block of the inverse that ends in zero coefficients; divisors whose reversal has gaps)
+    {
+        let gaps: Vec<usize> = if micro { vec![2, 5] } else if quick { vec![1, 2, 3, 4, 7, 8, 9, 15, 16, 17, 28, 31, 33] } else { (1..=70).collect() };
+        for &gap in &gaps {
+            for rep in 0..(if micro { 1 } else if quick { 2 } else { 6 }) {
+                let tail = 1 + (rep + gap) % 3;
+                let mut a = vec![0u64; gap + tail];
+                a[0] = gen::canon_u64(&mut rng, &bset).max(1);
+                for x in a[gap..].iter_mut() {
+                    *x = gen::canon_u64(&mut rng, &bset).max(1);
+                }
+                if rep % 2 == 1 && gap > 2 {
+                    a[gap / 2] = gen::canon_u64(&mut rng, &bset);
+                }
+                let pa = PolynomialCoeffs::new(fv(&a));
+                c.run.nontrivial(("sparse", gap, rep));
+                for n in [1usize, 2, gap, gap + 1, gap + tail, 2 * gap, 2 * gap + 1, 32, 33, 4 * gap + 3] {
+                    if n == 0 {
+                        continue;
+                    }
+                    c.run.eval();
+                    c.run.count("poly.sparse_inverse_cases", 1);
+                    match catch(|| pa.inv_mod_xn(n)) {
+                        Ok(inv) => {
+                            let mut prod = poly_mul(&a, &cv(&inv.coeffs));
+                            prod.truncate(n);
+                            if poly_trim(prod) != vec![1] || inv.coeffs.len() > n {
+                                c.fail("poly.inv_mod_xn", json!({"sparse": a, "n": n, "inv_len": inv.coeffs.len()}));
+                            }
+                        }
+                        Err(p) => c.fail(&format!("poly.inv_mod_xn.panic@{}", norm_loc(&p.loc)), json!({"sparse": a, "n": n, "panic": msg_class(&p.msg)})),
+                    }
+                }
+                // the reversal of `a` as a divisor (div_rem inverts the reversed divisor)
+                let mut b: Vec<u64> = a.clone();
+                b.reverse();
+                for extra in [0usize, 1, gap, 2 * gap + 1, 40] {
+                    let dividend = gen_vec(&mut rng, &bset, b.len() + extra, false);
+                    let (wq, wr) = poly_divrem(&dividend, &b);
+                    c.run.eval();
+                    c.run.count("poly.sparse_divisor_cases", 1);
+                    let pd = PolynomialCoeffs::new(fv(&dividend));
+                    let pb = PolynomialCoeffs::new(fv(&b));
+                    match catch(|| pd.div_rem(&pb)) {
+                        Ok((q, r)) => {
+                            if poly_trim(cv(&q.coeffs)) != wq || poly_trim(cv(&r.coeffs)) != wr {
+                                c.fail("poly.div_rem", json!({"sparse_divisor": b, "dividend_len": dividend.len()}));
+                            }
+                        }
+                        Err(p) => c.fail(&format!("poly.div_rem.panic@{}", norm_loc(&p.loc)), json!({"sparse_divisor": b, "panic": msg_class(&p.msg)})),
+                    }
+                }
+            }
+        }
+    }
+
     // ---- interpolation ------------------------------------------------------------------------
     {
         for n in 1..=(if micro { 5usize } else if quick { 20 } else { 40 }) {
